@@ -149,6 +149,7 @@ def validate(ctx, pid, scenarios, tag, shards=12):
 # clauses listed here are X's too (in the shared common pool only X.* clauses are).
 CROSS = {
     "C02": {"C05.legal_frame_rejected", "C17.undocumented_exception", "C02.returned_without_a_complete_frame",
+            "C06.well_formed_text_rejected",
             "C03.bytes_consumed_outside_the_calls",
             "C04.reassembled_message_differs", "C03.outcome_delayed_by_read", "C03.spurious_exception"},
     "C03": set(),      # judged by the group rule below: the same stream must behave the same under every cutting
@@ -222,15 +223,19 @@ class Fam:
         self.out = []
 
     def add(self, stream, calls, cuts=(), timeouts=(), end="eof", fireCont=False, skipUtf8=False,
-            max_calls=None, via_connect=False, nonblocking=False, prior=None, head_chunk=None):
+            max_calls=None, via_connect=False, nonblocking=False, prior=None, head_chunk=None, bad_connect=False):
         self.n += 1
         # configuration beyond the receive properties' own flags: trace logging on (every received frame is
         # re-formatted for the log) and the lock-free single-thread configuration - neither may change a result
         extra = {"trace": self.n % 5 == 0, "nolock": self.n % 7 == 0}
+        if self.n % 6 == 1:
+            extra["chunk_type"] = "bytearray" if self.n % 12 == 1 else "memoryview"
         if prior is not None:
             extra["prior_stream"] = bytes(prior)
         if head_chunk:
             extra["head_chunk"] = head_chunk
+        if bad_connect:
+            extra["bad_connect_after_timeout"] = True
         nfr = len(wire_frames_guess(stream))
         self.out.append(dict(tid="%s%d" % (self.prefix, self.n), stream=bytes(stream), calls=[list(c) for c in calls],
                              cuts=cuts if cuts == "every" else sorted(cuts), timeouts=sorted(timeouts), end=end,
@@ -290,6 +295,13 @@ def fam_decode(rng, tier):
         cuts = () if mode == 0 else "every" if (mode == 1 and len(stream) < 80) else header_boundaries(frames)
         api = rng.choice([["recv_frame", False]] * 3 + [["recv_data_frame", True]])
         f.add(stream, [api], cuts=cuts, max_calls=k + 3, via_connect=(i % 9 == 0))
+        if i % 10 == 3:
+            # a text message that is refused as ill-formed, the caller reads on: the frames after it are decoded as they are
+            bad = rng.choice([b"\xff", b"\xc3", b"ab\xed\xa0\x80", b"\xf8\x88\x80\x80\x80"])
+            tail = wire.sframe(B, b"\x01\x02") + wire.sframe(T, b"ok") + wire.sframe(T, b"x", 0) + wire.sframe(C, b"y", 1)
+            for api2 in (["recv_data_frame", True], ["recv_data", False], ["recv", False]):
+                f.add(wire.sframe(T, bad) + tail, [api2], max_calls=6)
+                f.add(wire.sframe(T, b"a", 0) + wire.sframe(C, bad, 1) + tail, [api2], max_calls=6)
         if i % 12 == 0:
             # the same object has been through an earlier connection that ended inside a frame / inside a message
             whole = wire.sframe(B, b"abcdef")
@@ -503,6 +515,11 @@ def fam_pings(rng, tier):
             f.add(fr + wire.sframe(T, b"x"), [["recv_data_frame", control]], max_calls=3,
                   cuts=rng.choice([(), header_boundaries([fr])]))
         f.add(wire.sframe(PI, pl) + wire.sframe(T, b"x"), [rng.choice([["recv", False], ["recv_data", False], ["recv_data", True]])], max_calls=3)
+    # more consecutive pings than any recursion would survive, read by one call that does not report control frames
+    many = b"".join(wire.sframe(PI, b"ka-%d" % i) for i in range(1500))
+    for api in (["recv", False], ["recv_data", False], ["recv_data_frame", False]):
+        f.add(many + wire.sframe(T, b"end"), [api], max_calls=3)
+    f.add(wire.sframe(T, b"he", 0) + many + wire.sframe(C, b"llo", 1), [["recv_data", False]], max_calls=3)
     for _ in range(150 if tier == "quick" else 2500):
         seq = []
         nmsg = rng.randrange(1, 4)
@@ -563,6 +580,11 @@ def fam_segmentation(rng, tier):
             for p, q in pairs:
                 f.add(stream, [api], cuts=rng.choice([(), "every"]), timeouts=[p, q], end="eof", max_calls=len(frames) + 5,
                       via_connect=rng.random() < 0.1)
+    # a timeout inside a frame, then a connect() of the same object that is refused for its URL: the connection goes on
+    for frames in shorts[:6]:
+        stream = b"".join(frames)
+        for p in range(1, len(stream)):
+            f.add(stream, [rng.choice(MSG_APIS)], cuts="every", timeouts=[p], max_calls=len(frames) + 4, bad_connect=True)
     # the handshake response itself arrives in pieces of 1, 2, 3, 7 bytes (frames follow in the same flow)
     for frames in shorts[:6]:
         for hc in (1, 2, 3, 7):
